@@ -25,6 +25,19 @@ Theorem c12_decision_congress : forall (rate : f32) (u : N) (q : Q), f32_to_Q ra
 Proof. exact congress_decide_spec. Qed.
 Print Assumptions c12_decision_congress.
 
+(* how many of the 2^24 equally likely draws emit at a rate num/den: floor(rate * 2^24) + 1, capped at 2^24.
+   (The decision is `draw <= rate`, so the emission probability is that count / 2^24: above the rate by at most
+   2^-24, and never below 2^-24 however small the rate.) *)
+Theorem c12_emitting_draws : forall num den : N, (0 < den)%N ->
+  sum_below (fun k => if emits_k num den k then 1 else 0)%N (2 ^ 24) = N.min (2 ^ 24) (num * 2 ^ 24 / den + 1).
+Proof. exact emitting_draws. Qed.
+Print Assumptions c12_emitting_draws.
+
+Theorem c12_emits_k_is_spec : forall (num : N) (den : positive) (u : N),
+  spec_emit (Qmake (Z.of_N num) den) u = emits_k num (Npos den) (N.shiftr (u mod 2 ^ 32) 8).
+Proof. exact spec_emit_is_emits_k. Qed.
+Print Assumptions c12_emits_k_is_spec.
+
 (* ================================================================ weight *)
 Local Open Scope N_scope.
 (* exact-rational weight for inv = I / 2^52 and the 2^53 equally likely draws k:
